@@ -3,10 +3,20 @@
    retrieval reply -> exactly <bytes> bytes read back (C03: c03_readvalue) -> deserializer (C15).  This file
    proves the middle of that path on the specification side: the server returns the stored bytes and flags for
    that key and no other (Spec/Server.v), and a strict reader of the reply gets exactly the items back whatever
-   the data contains (Spec/Reply.v).  PARTIAL: the composition with the Client model's fetch loop is covered by
-   the differential run of this check, not by one end-to-end theorem. *)
+   the data contains (Spec/Reply.v); and END TO END on the Client model (the c04_e2e theorems, Proofs/E2EFetch.v):
+   on a connected client with nothing pending, a fault-free transport and the specification server as the peer,
+     c04_e2e_get / c04_e2e_gets      return the deserialised item the server holds under the prefixed key (or the default),
+     c04_e2e_get_many                returns, for any number of keys with pairwise different wire keys, each live item
+                                     under the caller's own key and nothing else,
+     c04_e2e_set_then_get            set followed by get returns the value stored (native values with a serializer; the
+                                     stored bytes without one), whatever bytes it contains, and leaves nothing unread,
+     c04_e2e_set_keeps_other         a set of one key does not change what a get of another key returns,
+     c04_server_invariant            (the side condition swf of the above holds in every reachable server state).
+   PARTIAL: pickled (non-native) values go through the pickle oracle and are covered by C15's theorems plus the
+   differential run of this check; calls that must reconnect first and non-default flags are checked, not proved. *)
 From Coq Require Import ZArith List Bool.
-From PM Require Import Lib.Py Spec.LegalKey Model.Lits Spec.Proto Spec.Server Spec.Reply Proofs.C04Proof.
+From PM Require Import Lib.Py Spec.LegalKey Model.Lits Spec.Proto Spec.Server Spec.Reply Proofs.C04Proof
+                       Model.World Model.Client Proofs.Hoare Proofs.C02Proof Proofs.Quiet Proofs.E2E Proofs.E2EFetch Gen.Handlers.
 Import ListNotations.
 Open Scope Z_scope.
 
@@ -35,3 +45,79 @@ Example c04_ex :
   parse_values 5 true (render_values true [([107], {| i_flags := 16; i_exp := 0; i_data := nasty; i_cas := 7 |}); ([106], {| i_flags := 0; i_exp := 0; i_data := []; i_cas := 8 |})])
   = Some [([107], 16, nasty, 7); ([106], 0, [], 8)].
 Proof. vm_compute. reflexivity. Qed.
+
+(* ---- end to end on the Client model ---- *)
+Definition quiet_cfg (c : cfg) : Prop :=
+  c_ignore_exc c = false /\ h_fetch c = BaseException /\ (forall e, exn_isa e Exception_ = true -> exn_isa e (h_store c) = true).
+
+Theorem c04_server_invariant : forall now, swf (empty_server now) /\
+  (forall s cm, swf s -> wf_cmd cm = true -> swf (fst (exec s cm))) /\ (forall s d, swf s -> swf (tick s d)).
+Proof. intros now. split; [apply swf_empty|]. split; [exact exec_swf|exact tick_swf]. Qed.
+
+Theorem c04_e2e_get : forall c, c_ignore_exc c = false -> h_fetch c = BaseException ->
+  forall sid s key default k, check_key c (c_prefix c) key = Ok k -> swf s ->
+  hoare (St sstate sid s []) (run_op sstate serve c (OpGet key default))
+        (fun v w => match live s k with None => v = default | Some it => deser c it = Ok v end /\ St sstate sid s [] w)
+        (fun e w => (exists it, live s k = Some it /\ deser c it = Raise e) /\ w_sock w = None).
+Proof. exact E2EFetch.get_e2e. Qed.
+Print Assumptions c04_e2e_get.
+Theorem c04_e2e_gets : forall c, c_ignore_exc c = false -> h_fetch c = BaseException ->
+  forall sid s key default cas_default k, check_key c (c_prefix c) key = Ok k -> swf s ->
+  hoare (St sstate sid s []) (run_op sstate serve c (OpGets key default cas_default))
+        (fun v w => match live s k with
+                    | None => v = DTuple [default; cas_default]
+                    | Some it => exists x, deser c it = Ok x /\ v = DTuple [x; DBytes (str_of_Z (i_cas it))] end /\ St sstate sid s [] w)
+        (fun e w => (exists it, live s k = Some it /\ deser c it = Raise e) /\ w_sock w = None).
+Proof. exact E2EFetch.gets_e2e. Qed.
+Theorem c04_e2e_get_many : forall c, c_ignore_exc c = false -> h_fetch c = BaseException ->
+  forall sid s (g oneshot : bool) keys pks, wire_keys c (c_prefix c) keys = Ok pks -> keys <> [] -> NoDup pks -> swf s ->
+  hoare (St sstate sid s []) (run_op sstate serve c (if g then OpGetsMany oneshot keys else OpGetMany oneshot keys))
+        (fun v w => (exists res, many_spec c g s (combine pks keys) [] = Ok res /\ v = DDict res) /\ St sstate sid s [] w)
+        (fun e w => many_spec c g s (combine pks keys) [] = Raise e /\ w_sock w = None).
+Proof. exact E2EFetch.get_many_e2e. Qed.
+Print Assumptions c04_e2e_get_many.
+Theorem c04_e2e_set_then_get : forall c, c_ignore_exc c = false -> h_fetch c = BaseException ->
+  (forall e, exn_isa e Exception_ = true -> exn_isa e (h_store c) = true) ->
+  forall sid s key value expire n bytes default x,
+  let nr := eff_noreply c n in
+  store_bytes c (verb_name 0) [(key, value)] expire nr DNone None = Ok bytes -> in_i64 expire ->
+  (c_serde c =? 0) = true \/ native value -> swf s ->
+  (forall e, int_value expire = Some e -> abs_exp (s_now s) e = Some x /\ (x = 0 \/ s_now s < x)) ->
+  exists db,
+  hoare (St sstate sid s []) (mbind (run_op sstate serve c (OpStore 0 key value expire n DNone)) (fun _ => run_op sstate serve c (OpGet key default)))
+        (fun v w => v = comes_back c value db /\ exists s', St sstate sid s' [] w) (fun _ _ => False).
+Proof. exact E2EFetch.set_then_get_e2e. Qed.
+Print Assumptions c04_e2e_set_then_get.
+Theorem c04_e2e_set_keeps_other : forall c, c_ignore_exc c = false -> h_fetch c = BaseException ->
+  (forall e, exn_isa e Exception_ = true -> exn_isa e (h_store c) = true) ->
+  forall sid s key value expire n bytes key2 k2 default,
+  let nr := eff_noreply c n in
+  store_bytes c (verb_name 0) [(key, value)] expire nr DNone None = Ok bytes -> in_i64 expire -> swf s ->
+  check_key c (c_prefix c) key2 = Ok k2 -> (forall k, check_key c (c_prefix c) key = Ok k -> list_eqb k k2 = false) ->
+  hoare (St sstate sid s []) (mbind (run_op sstate serve c (OpStore 0 key value expire n DNone)) (fun _ => run_op sstate serve c (OpGet key2 default)))
+        (fun v w => match live s k2 with None => v = default | Some it => deser c it = Ok v end /\ exists s', St sstate sid s' [] w)
+        (fun e w => (exists it, live s k2 = Some it /\ deser c it = Raise e) /\ w_sock w = None).
+Proof. exact E2EFetch.set_keeps_other_e2e. Qed.
+Print Assumptions c04_e2e_set_keeps_other.
+(* the handler classes the theorems assume are the ones in the source (read on every run) *)
+Theorem c04_src_handlers : src_h_fetch = BaseException /\ src_h_store = BaseException.
+Proof. split; reflexivity. Qed.
+
+(* non-vacuity: the premises are met by a concrete connected client (prefix "p:", PickleSerde, 3-byte recv chunks) and the
+   model, run on it, stores and fetches a value full of protocol text under two keys *)
+Definition ex_cfg : cfg := {| c_tcp := false; c_naddr := 1; c_nodelay := false; c_tls := false; c_keepalive := false; c_ignore_exc := false;
+  c_prefix := [112; 58]; c_default_noreply := true; c_unicode := false; c_enc := EncAscii; c_serde := 1;
+  h_fetch := src_h_fetch; h_store := src_h_store; h_misc := src_h_misc |}.
+Definition ex_world : world sstate := {| w_script := []; w_choices := [CChunk 3; CChunk 1; CChunk 4096]; w_peer := empty_server 100; w_conns := [(1, [])];
+  w_buf := []; w_discarded := []; w_bad := false; w_trace := []; w_next := 2; w_sock := Some 1 |}.
+Example c04_e2e_ex :
+  let nasty := DBytes [13; 10; 69; 78; 68; 13; 10; 86; 65; 76; 85; 69; 32; 120; 32; 48; 32; 49; 13; 10] in
+  quiet_cfg ex_cfg /\ St sstate 1 (empty_server 100) [] ex_world /\
+  let '(r, w) := mbind (run_op sstate serve ex_cfg (OpStore 0 (DStr [107]) nasty (DInt 0) DNone DNone))
+                  (fun _ => mbind (run_op sstate serve ex_cfg (OpStore 0 (DBytes [106]) (DStr [233; 8364]) (DInt 50) (DBool false) DNone))
+                  (fun _ => run_op sstate serve ex_cfg (OpGetMany false [DBytes [106]; DStr [122]; DStr [107]]))) ex_world in
+  r = Ok (DDict [DTuple [DBytes [106]; DStr [233; 8364]]; DTuple [DStr [107]; nasty]]) /\ w_buf w = [] /\ w_conns w = [(1, [])] /\ w_sock w = Some 1.
+Proof.
+  cbn zeta. split; [split; [reflexivity|split; [reflexivity|intros e _; destruct e; reflexivity]]|].
+  split; [unfold St; cbn; repeat split; repeat constructor|]. vm_compute. repeat split; reflexivity.
+Qed.
